@@ -227,14 +227,10 @@ class DensityData:
             processed_density_data (DensityData): An instance of DensityData that
             combines information from the TE density HDF5 data and GeneData
         """
-        if os.path.exists(h5_file.replace(".h5", "_SenseSwapped.HDF5")):
-            logger.info("Previous sense swapped data exists, reading...")
-            processed_density_data = cls(
-                h5_file, gene_data_instance, logger, sense_swap=False
-            )
-        else:
-            logger.info("Writing new sense swapped DensityData...")
-            processed_density_data = cls(h5_file, gene_data_instance, logger)
+        # NB the initializer itself reads the sense swapped copy if it exists
+        # and creates it otherwise (sense_swap=False would read the raw,
+        # un-swapped, file)
+        processed_density_data = cls(h5_file, gene_data_instance, logger)
         return processed_density_data
 
     def _swap_strand_vals(self, gene_names):
